@@ -9,8 +9,10 @@ map, concatenated in config-base order, binary files verbatim). Finally the real
 way the mechanic calls it, with preserve=True and preserve=False, and the directory tree is inspected.
 """
 import json
+import logging
 import os
 import shutil
+import time
 
 import jinja2
 
@@ -40,6 +42,10 @@ ASSUMPTIONS = [
     "'the installation' that cleanup removes is NodeConfiguration.binary_path, the data paths are NodeConfiguration.data_paths - what the mechanic passes; "
     "a data path that is a symlink to a directory counts as removed when nothing is left behind it",
     "data_paths is car-controlled by design (not a protected variable); text files of the distribution outside config/ are not overwritten by generated templates",
+    "the comma separated `base` list of a car names its config bases; blanks around a name are not part of the name (2% of the cases write `base=a, b`)",
+    "hostile but legal surroundings are generated at a low rate: a data path that is a symbolic link to a directory (2%), an install directory that already "
+    "holds an entry whose name starts with 'elasticsearch' (2%: a log file, a backup directory, the installation of an earlier race)",
+    "plugins, install hooks (config.py) and the Docker provisioner are not exercised",
 ]
 REQUIRED_CLAUSES = [
     "compose-no-error", "car-names", "config-paths-order-dedup", "var-keys", "var-precedence", "prepare-no-error", "install-root", "node-config",
@@ -47,15 +53,18 @@ REQUIRED_CLAUSES = [
     "prepop-untouched", "preserve-keeps-everything", "cleanup-install-gone", "cleanup-data-gone", "cleanup-no-collateral",
 ]
 REQUIRED_FEATURES = {
-    "shared-base": 20, "param-over-car": 20, "param-over-base": 20, "latercar-over-earliercar": 20, "car-over-base": 20, "earliercar-over-laterbase": 10,
-    "laterbase-over-earlierbase": 10, "file-from-2-bases": 20, "binary-file": 20, "binary-from-2-bases": 5, "protected-shadowed-in-template": 20,
-    "tree-depth-3": 10, "data-default": 20, "data-inside-installation": 10, "data-outside": 10, "prepopulated": 20, "interpolation": 10,
-    "prebundled-config-replaced": 20, "non-string-param": 10,
+    "shared-base": 10, "param-over-car": 10, "param-over-base": 10, "latercar-over-earliercar": 10, "car-over-base": 10, "earliercar-over-laterbase": 5,
+    "laterbase-over-earlierbase": 5, "file-from-2-bases": 10, "binary-file": 10, "binary-from-2-bases": 3, "protected-shadowed-in-template": 10,
+    "tree-depth-3": 5, "data-default": 10, "data-inside-installation": 5, "data-outside": 5, "prepopulated": 10, "interpolation": 5,
+    "prebundled-config-replaced": 10, "non-string-param": 5,
 }
 BUDGET = {
-    "quick": {"cases": 6400, "seconds": 35},
-    "thorough": {"cases": 120000, "seconds": 480},
+    "quick": {"cases": 4000, "seconds": 30},
+    "thorough": {"cases": 60000, "seconds": 540},
 }
+
+
+logging.getLogger().addHandler(logging.NullHandler())  # Rally logs every skipped deletion with a traceback; keep the shard logs readable
 
 
 class _Null:
@@ -82,16 +91,20 @@ def ref_compose(spec, root):
     def cvars(n):
         return {k: G.sub(v, root) for k, _, v in (cars[n]["vars"] or [])}
 
+    def cbases(n):
+        # the base list is comma separated; blanks around a name carry no meaning (as everywhere in an ini file)
+        return [b.strip() for b in (cars[n]["bases"] or []) if b.strip()]
+
     order, introduced_by = [], {}
     for i, n in enumerate(names):
-        for b in cars[n]["bases"] or []:
+        for b in cbases(n):
             if b and b not in order:
                 order.append(b)
                 introduced_by[b] = i
     # config.ini variables: (A) applied car by car, again when a later car names the base again; (B) once per base at its first occurrence
     fold_a, fold_b = {}, {}
     for n in names:
-        for b in cars[n]["bases"] or []:
+        for b in cbases(n):
             fold_a.update(bvars(b))
     for b in order:
         fold_b.update(bvars(b))
@@ -116,7 +129,7 @@ def ref_compose(spec, root):
         prov.setdefault(k, []).append(("car-params", v))
 
     feats = set()
-    occurrences = [b for n in names for b in (cars[n]["bases"] or [])]
+    occurrences = [b for n in names for b in cbases(n)]
     if len(occurrences) > len(set(occurrences)):
         feats.add("shared-base")
     if len(variants) > 1:
@@ -221,11 +234,14 @@ def ref_tree(spec, order, varmap, owned):
     return exp, info
 
 
+_ROOT = ["\0"]
+
+
 def show(b, n=160):
     if b is None:
         return None
     try:
-        s = b.decode("utf-8")
+        s = b.decode("utf-8").replace(_ROOT[0], "@ROOT@")
     except UnicodeDecodeError:
         s = b.hex()
     return s if len(s) <= n else s[:n] + "...(%d bytes)" % len(b)
@@ -456,7 +472,7 @@ def check_cleanup(ctx, spec, root, paths, nc, problems):
     lost = []
     for rel, data in before.items():
         ab = os.path.join(root, rel.rstrip("@"))
-        if any(under(ab, r) for r in removable) or any(under(os.path.realpath(os.path.dirname(ab)), r) for r in removable):
+        if any(under(ab, r) for r in removable) or (spec.get("links") and any(under(os.path.realpath(os.path.dirname(ab)), r) for r in removable)):
             continue
         if now.get(rel) != data:
             lost.append(rel)
@@ -471,6 +487,7 @@ def run_spec(ctx, spec, root):
         shutil.rmtree(root)
     os.makedirs(root)
     problems, feats = [], set()
+    _ROOT[0] = root
     try:
         paths = G.materialise(spec, root)
         car, order, variants, f = check_composition(ctx, spec, root, paths, problems)
@@ -481,6 +498,8 @@ def run_spec(ctx, spec, root):
                 check_cleanup(ctx, spec, root, paths, nc, problems)
     finally:
         shutil.rmtree(root, ignore_errors=True)
+    # witnesses and messages never carry the scratch location
+    problems = [(c, m.replace(root, "@ROOT@"), json.loads(json.dumps(d, default=repr).replace(root, "@ROOT@"))) for c, m, d in problems]
     return problems, feats
 
 
@@ -499,7 +518,7 @@ def _reductions(spec):
             s = clone()
             del s["cars"][c]
             yield s
-    used = {b for c in spec["cars"].values() for b in (c["bases"] or [])}
+    used = {b.strip() for c in spec["cars"].values() for b in (c["bases"] or [])}
     for b in list(spec["bases"]):
         if b not in used:
             s = clone()
@@ -553,9 +572,10 @@ def signature(msg):
     return msg.split(":")[0] if " raised " in msg.split(":")[0] else ""
 
 
-def shrink(spec, clause, msg, root, max_runs=250):
+def shrink(spec, clause, msg, root, max_runs=120, max_seconds=4.0):
     runs = 0
     sig = signature(msg)
+    t_end = time.monotonic() + max_seconds  # effort bound only; the verdict does not depend on it
 
     def fails(s):
         nonlocal runs
@@ -567,10 +587,10 @@ def shrink(spec, clause, msg, root, max_runs=250):
         return any(p[0] == clause and signature(p[1]) == sig for p in probs)
 
     changed = True
-    while changed and runs < max_runs:
+    while changed and runs < max_runs and time.monotonic() < t_end:
         changed = False
         for s in _reductions(spec):
-            if runs >= max_runs:
+            if runs >= max_runs or time.monotonic() >= t_end:
                 break
             if fails(s):
                 spec, changed = s, True
@@ -597,7 +617,7 @@ def one_case(ctx, rng, explicit=None):
         feats.add("symlinked-data-path")
     if any(rel.startswith("install/elasticsearch") for rel in spec["prepop"]):
         feats.add("prepop-named-elasticsearch")
-    nbases = len({b for n in spec["names"] for b in (spec["cars"][n]["bases"] or [])})
+    nbases = len({b.strip() for n in spec["names"] for b in (spec["cars"][n]["bases"] or [])})
     nontrivial = (len(spec["names"]) >= 2 or nbases >= 2) and bool({"var-at-2-levels", "file-from-2-bases"} & feats)
     ctx.case(spec, nontrivial, feats)
     ctx.distinct("composition-shapes", [[len(spec["cars"][n]["bases"] or []) for n in spec["names"]], spec["params"] is not None and len(spec["params"])])
@@ -611,7 +631,7 @@ def one_case(ctx, rng, explicit=None):
         # shrink the first few witnesses of each kind only (the runner keeps three per kind)
         kind = (clause, classify({"clause": clause, "witness": {"spec": spec, "detail": detail}, "msg": msg}))
         _SHRUNK[kind] = _SHRUNK.get(kind, 0) + 1
-        small = shrink(spec, clause, msg, str(ctx.scratch / "shrink")) if len(seen) <= 2 and _SHRUNK[kind] <= 3 else spec
+        small = shrink(spec, clause, msg, str(ctx.scratch / "shrink")) if explicit is None and len(seen) <= 2 and _SHRUNK[kind] <= 1 else spec
         if small is not spec:
             # report the message of the shrunk case
             probs2, _ = run_spec(_Null(), small, str(ctx.scratch / "shrink"))
